@@ -77,7 +77,7 @@ class C14(Machine):
         if not v and "candidates" in data:
             cands = [[list(p) for p in s] for s in data["candidates"]]
             seen["candidates"] = D.digest(cands)
-            v += check_candidates(world, self.ID, nid, cands, step, site, exempt=skip_exempt(world, nid) if skipped else None)
+            v += check_candidates(world, self.ID, nid, cands, step, site, exempt=skip_exempt(world, nid) if skipped else None, outside_successors=bool(d["expanded"]) and not skipped)
         return v, seen
 
     def check_step(self, world, st, op, out, step):
